@@ -1025,6 +1025,11 @@ func isSafeForReverseInner(re *syntax.Regexp) bool {
 	if hasNonGreedyQuantifier(re) {
 		return false
 	}
+	// The prefix is searched backwards with a reverse NFA, which turns assertions
+	// into epsilon edges: [ab]+(?m:^)a would match inside a line.
+	if reverseDropsAssertion(re) {
+		return false
+	}
 	switch re.Op {
 	case syntax.OpConcat:
 		if len(re.Sub) < 2 {
